@@ -5,6 +5,7 @@ package main
 // counters, frame (modifies) obligations.
 
 import (
+	"regexp"
 	"fmt"
 	"go/token"
 	"go/types"
@@ -157,6 +158,23 @@ func (u *Unit) bumpCalls(st *State, desigs []string, args []Term, res []Term, rt
 	st.Calls = append(st.Calls, CallEvent{Desigs: desigs, Args: args, Res: res, ResTys: rtys, Seq: st.Seq})
 }
 
+var atReturnRe = regexp.MustCompile(`at_return\(\s*"?([^",]+?)"?\s*,`)
+
+// snapDesigs: designators whose return state some clause of this unit's contract asks for.
+func (u *Unit) snapDesigs() map[string]bool {
+	if u.snapD == nil {
+		u.snapD = map[string]bool{}
+		if u.C != nil {
+			for _, cl := range u.C.Clauses {
+				for _, m := range atReturnRe.FindAllStringSubmatch(cl.Text, -1) {
+					u.snapD[m[1]] = true
+				}
+			}
+		}
+	}
+	return u.snapD
+}
+
 func termsOf(vs []Val) []Term {
 	out := make([]Term, len(vs))
 	for i, v := range vs {
@@ -172,7 +190,24 @@ func termsOf(vs []Val) []Term {
 func (u *Unit) execCallVals(st *State, fr *Frame, site ssa.Instruction, c *ssa.CallCommon, fn Val, args []Val, k0 CallK) {
 	// remember argument types of the call event (for lastarg)
 	n0 := len(st.Calls)
+	hv0 := len(st.AllHavocs)
 	k := func(st *State, fr *Frame, res Val) {
+		u.settleHavocs(st, hv0)
+		if len(u.snapDesigs()) > 0 {
+			for i := n0; i < len(st.Calls); i++ {
+				if st.Calls[i].Post != nil || st.Calls[i].Havoc {
+					continue
+				}
+				for _, d := range st.Calls[i].Desigs {
+					if u.snapD[d] {
+						snap := st.Clone()
+						snap.Calls = nil // the snapshot is only read for its heap
+						st.Calls[i].Post = snap
+						break
+					}
+				}
+			}
+		}
 		if len(st.Calls) > n0 {
 			var tys []types.Type
 			if c.IsInvoke() {
@@ -494,18 +529,42 @@ func (u *Unit) havocKey(st *State, key string, modified func(addr Term) Term) {
 type allHavoc struct {
 	id   int
 	pred func(addr Term) Term
+	// clk: the allocation clock when the havocking call had returned (everything the
+	// havocked memory can refer to was allocated by then); -1 until that is known. Shared
+	// by all copies of the havoc in cloned states.
+	clk *int
 }
 
 func (u *Unit) newAllHavoc(pred func(addr Term) Term) allHavoc {
 	u.havocSeq++
-	return allHavoc{id: u.havocSeq, pred: pred}
+	c := new(int)
+	*c = -1
+	return allHavoc{id: u.havocSeq, pred: pred, clk: c}
+}
+
+// settleHavocs: the call (or loop cut) that registered the havocs from index `from` on is
+// over; what they left in memory was allocated no later than now.
+func (u *Unit) settleHavocs(st *State, from int) {
+	for i := from; i < len(st.AllHavocs); i++ {
+		if c := st.AllHavocs[i].clk; c != nil && *c < 0 {
+			*c = u.fresh
+		}
+	}
 }
 
 // applyAllHavoc applies a whole-heap havoc to one key. Clones of a state apply
 // the same pending havoc lazily and independently: they must end up with the
 // same memory constant, so the result is memoised per (memory before, havoc).
 func (u *Unit) applyAllHavoc(st *State, key string, h allHavoc) {
-	st.Clock = u.fresh
+	// a havoc is applied to a key when the key is next read, possibly much later (or in a
+	// snapshot of an earlier state): the clock is the one of the havocking call
+	c := u.fresh
+	if h.clk != nil && *h.clk >= 0 {
+		c = *h.clk
+	}
+	if c > st.Clock {
+		st.Clock = c
+	}
 	so := st.MemSort[key]
 	old := st.Mem[key]
 	mk := fmt.Sprintf("%d#%s", h.id, old.String())
